@@ -236,8 +236,67 @@ pub fn oracle_c10(w: &World, so: &StepObs, out: &mut StepOut) {
     }
 }
 
+/// Reference funding checkpoints kept by the harness (independent of the stored
+/// `last_updated_premium_fraction`): cumulative premium fraction at the position's last charging
+/// event (own trade, withdrawal, partial close).
+pub type CpRef = BTreeMap<String, i128>;
+pub fn cp_key(v: usize, t: &str) -> String {
+    format!("{}/{}", v, t)
+}
+pub fn cp_from_mon(mon: &serde_json::Value) -> CpRef {
+    let mut m = CpRef::new();
+    if let Some(o) = mon["cp"].as_object() {
+        for (k, v) in o {
+            if let Some(x) = v.as_i64() {
+                m.insert(k.clone(), x as i128);
+            }
+        }
+    }
+    m
+}
+pub fn cp_to_mon(m: &CpRef) -> serde_json::Value {
+    let mut o = serde_json::Map::new();
+    for (k, v) in m {
+        o.insert(k.clone(), serde_json::json!(*v as i64));
+    }
+    serde_json::json!({ "cp": o })
+}
+/// update of the reference checkpoints by one observed step
+pub fn cp_update(cps: &CpRef, so: &StepObs) -> CpRef {
+    let mut m = cps.clone();
+    if !so.outcome.ok {
+        return m;
+    }
+    match &so.act {
+        Act::Open { t, v, .. } | Act::Wd { t, v, .. } | Act::Close { t, v, .. } => {
+            match &so.post_t(*v, t).pos {
+                Some(p) if !p.size.is_zero() => {
+                    m.insert(cp_key(*v, t), so.post.vamms[*v].cum);
+                }
+                _ => {
+                    m.remove(&cp_key(*v, t));
+                }
+            }
+        }
+        Act::Liq { t, v, .. } => {
+            if so.post_t(*v, t).pos.is_none() {
+                m.remove(&cp_key(*v, t));
+            }
+        }
+        _ => {}
+    }
+    m
+}
+/// funding owed by the position according to the reference checkpoint (falls back to the stored one)
+pub fn owed_ref(p: &Position, cum: i128, cps: &CpRef, v: usize, t: &str) -> i128 {
+    match cps.get(&cp_key(v, t)) {
+        Some(cp) => tdiv((cum - cp) * size_of(p), DI),
+        None => owed_of(p, cum),
+    }
+}
+
 // --------------------------------------------------------------------------------------- C04
-pub fn oracle_c04(w: &World, so: &StepObs, out: &mut StepOut) {
+pub fn oracle_c04(w: &World, so: &StepObs, out: &mut StepOut, cps: &CpRef) {
     let eng = w.engine.to_string();
     if let Act::Close { t, v, .. } = &so.act {
         let p0 = so.pre_t(*v, t);
@@ -245,7 +304,7 @@ pub fn oracle_c04(w: &World, so: &StepObs, out: &mut StepOut) {
             if !pp.size.is_zero() && p0.out_spot >= 0 {
                 let cum = so.pre.vamms[*v].cum;
                 let pnl = pnl_of(pp, p0.out_spot);
-                let owed = owed_of(pp, cum);
+                let owed = owed_ref(pp, cum, cps, *v, t);
                 let eq = pp.margin.u128() as i128 + pnl - owed;
                 if so.outcome.ok {
                     let post = so.post_t(*v, t);
@@ -432,6 +491,10 @@ pub fn oracle_c05(w: &World, so: &StepObs, out: &mut StepOut) {
                                 );
                             }
                             match w.free_collateral(*v, t) {
+                                Ok(q) if itoi(&q) < 0 => out.viol(
+                                    "C05:withdraw-leaves-negative-free-collateral",
+                                    format!("FreeCollateral query answers {} after {:?}", q, so.act),
+                                ),
                                 Ok(q) if (itoi(&q) - fc).abs() <= 1 => {}
                                 other => out.viol(
                                     "C05:free-collateral-query-disagrees-with-reference",
@@ -636,7 +699,22 @@ pub fn oracle_c06_c07(w: &World, so: &StepObs, out: &mut StepOut, do6: bool, do7
 }
 
 // --------------------------------------------------------------------------------------- C11
-pub fn oracle_c11(w: &World, so: &StepObs, out: &mut StepOut) {
+pub fn oracle_c11(w: &World, so: &StepObs, out: &mut StepOut, cps: &CpRef) {
+    // stored checkpoint of a surviving position equals the current cumulative fraction after every
+    // charging event (including the very first trade of a position)
+    if so.outcome.ok {
+        if let Act::Open { t, v, .. } | Act::Wd { t, v, .. } | Act::Close { t, v, .. } = &so.act {
+            if let Some(p1) = &so.post_t(*v, t).pos {
+                if !p1.size.is_zero() && itoi(&p1.last_updated_premium_fraction) != so.post.vamms[*v].cum {
+                    let fresh = so.pre_t(*v, t).pos.as_ref().map(|p| p.size.is_zero()).unwrap_or(true);
+                    out.viol(
+                        format!("C11:checkpoint-not-advanced:{}{}", so.act.kind(), if fresh { ":fresh-position" } else { "" }),
+                        format!("checkpoint {} != cumulative fraction {} after {:?}", p1.last_updated_premium_fraction, so.post.vamms[*v].cum, so.act),
+                    );
+                }
+            }
+        }
+    }
     let cfg = &w.cfg;
     let eng = w.engine.to_string();
     let ifu = w.ifund.to_string();
@@ -700,17 +778,11 @@ pub fn oracle_c11(w: &World, so: &StepObs, out: &mut StepOut) {
             let cum = so.pre.vamms[*v].cum;
             if let Some(pp) = &p0o.pos {
                 if !pp.size.is_zero() {
-                    let owed = owed_of(pp, cum);
+                    let owed = owed_ref(pp, cum, cps, *v, t);
                     let n = margin * lev / D;
                     let same_side = (pp.direction == Direction::AddToAmm) == *buy;
                     match &post.pos {
                         Some(pn) if !pn.size.is_zero() => {
-                            if itoi(&pn.last_updated_premium_fraction) != so.post.vamms[*v].cum {
-                                out.viol(
-                                    "C11:checkpoint-not-advanced:open",
-                                    format!("checkpoint {} != cumulative {} after {:?}", pn.last_updated_premium_fraction, so.post.vamms[*v].cum, so.act),
-                                );
-                            }
                             let reversed = (size_of(pp) > 0) != (size_of(pn) > 0);
                             if owed != 0 {
                                 if same_side {
@@ -763,11 +835,47 @@ pub fn oracle_c11(w: &World, so: &StepObs, out: &mut StepOut) {
                 }
             }
         }
-        Act::Wd { t, v, .. } if so.outcome.ok => {
+        Act::Wd { t, v, amt } if so.outcome.ok => {
             if let (Some(p0), Some(p1)) = (&so.pre_t(*v, t).pos, &so.post_t(*v, t).pos) {
-                let _ = p0;
-                if itoi(&p1.last_updated_premium_fraction) != so.post.vamms[*v].cum {
-                    out.viol("C11:checkpoint-not-advanced:withdraw", format!("{:?}", so.act));
+                let owed = owed_ref(p0, so.pre.vamms[*v].cum, cps, *v, t);
+                if owed != 0 {
+                    out.tag("c11:withdraw-with-funding-owed");
+                    let e = p0.margin.u128() as i128 - *amt as i128 - owed;
+                    if (p1.margin.u128() as i128 - e.max(0)).abs() > 1 {
+                        out.viol("C11:funding-charge:withdraw", format!("margin' {} expected {} (owed {}) in {:?}", p1.margin, e, owed, so.act));
+                    }
+                }
+            }
+        }
+        Act::Close { t, v, .. } if so.outcome.ok => {
+            // whole close: payout reflects funding owed exactly once (also C04)
+            if let (Some(p0), None) = (&so.pre_t(*v, t).pos, &so.post_t(*v, t).pos) {
+                let owed = owed_ref(p0, so.pre.vamms[*v].cum, cps, *v, t);
+                if owed != 0 && so.pre_t(*v, t).out_spot >= 0 {
+                    out.tag("c11:close-with-funding-owed");
+                    let exch = so.swaps.first().map(|s| s.quote as i128).unwrap_or(so.pre_t(*v, t).out_spot);
+                    let eq = p0.margin.u128() as i128 + pnl_of(p0, exch) - owed;
+                    let paid: i128 = so.xfers.iter().filter(|x| !x.pulled && x.from == eng && &x.to == t).map(|x| x.amt as i128).sum();
+                    if (paid - eq.max(0)).abs() > 1 {
+                        out.viol("C11:funding-charge:close", format!("paid {} expected {} (owed {}) in {:?}", paid, eq, owed, so.act));
+                    }
+                }
+            }
+        }
+        Act::Liq { t, v, by, .. } if so.outcome.ok => {
+            // full liquidation charges the funding owed: remaining margin to the fund reflects it
+            if let (Some(p0), None) = (&so.pre_t(*v, t).pos, &so.post_t(*v, t).pos) {
+                let owed = owed_ref(p0, so.pre.vamms[*v].cum, cps, *v, t);
+                if owed != 0 {
+                    out.tag("c11:full-liquidation-with-funding-owed");
+                    let exch = so.swaps.first().map(|s| s.quote as i128).unwrap_or(so.pre_t(*v, t).out_spot);
+                    let fee = exch * cfg.liq_fee as i128 / DI / 2;
+                    let rem = p0.margin.u128() as i128 + pnl_of(p0, exch) - owed - fee;
+                    let to_if: i128 = so.xfers.iter().filter(|x| x.from == eng && x.to == ifu).map(|x| x.amt as i128).sum();
+                    let _ = by;
+                    if (to_if - rem.max(0)).abs() > 1 {
+                        out.viol("C11:funding-charge:full-liquidation", format!("insurance fund got {} expected {} (owed {}) in {:?}", to_if, rem.max(0), owed, so.act));
+                    }
                 }
             }
         }
